@@ -55,6 +55,9 @@ ASSUMPTIONS = [
     "a row of a curve's point array); the reference map uses its value when the call is made, such a step is never "
     "placed after another element of the same transform([...]) list, and that argument is exempt from the "
     "arguments-untouched check (it belongs to the entity)",
+    "a transform([...]) call may be issued twice with the same Transformation objects: each use is the affine map the "
+    "list describes (default origins from the entity as it is then), and the objects still hold exactly what they were "
+    "given afterwards",
     "block numbering after mirror: kept or bottom/top swapped are both accepted (handedness of the result is C11's "
     "business); return values of the methods are not used",
     "a default origin in the middle of a transform([...]) list is the image of the center read before the call under "
@@ -81,7 +84,7 @@ def base_facts(ent: x.Ent, tkind: str, case) -> dict:
 
 def tf_facts(facts: dict, ap: x.Applied) -> dict:
     out = dict(facts)
-    out.update(parity=ap.parity, mirrors=ap.mirrors, normals_unit=ap.normals_unit, default_origin=ap.default_origin, own_origin=ap.own_origin, ratio=ap.s)
+    out.update(parity=ap.parity, mirrors=ap.mirrors, normals_unit=ap.normals_unit, default_origin=ap.default_origin, own_origin=ap.own_origin, list_reused=ap.reused, ratio=ap.s)
     return out
 
 
@@ -138,7 +141,7 @@ def make_check_tf(ent: x.Ent, tkind: str):
         g1 = x.geo_of(add1, facts, "transformed")
         discs, labels = x.compare(g0, g1, ap, shared)
         mark_bypass(ent, tf, discs)
-        ctx.label(*x.tf_labels(tf), *sorted(set(labels)), *ent.labels(p))
+        ctx.label(*x.tf_labels(tf), *sorted(set(labels)), *ent.labels(p), *(["list=reused"] if ap.reused else []))
         ctx.nt(x.tf_nontrivial(tf) and ent.curved(p))
         x.raise_first(discs, facts)
 
